@@ -79,7 +79,10 @@ class Check(PropertyCheck):
             if w >= 5 and h >= 1 and self.rng.chance(1, 2):
                 inner = [" ab" + ("c" * self.rng.below(w - 4))]
             k, n = self.rng.below(12), self.rng.below(6)
-            out.append((make_box(w, h, corners, hor, ver_rows, inner, hor_bottom), w, h, rounded, dashed, k, n, inner is not None))
+            # the recorded finding, exactly: rounded boxes without interior columns (any corner style), and rounded boxes
+            # without interior rows whose left corners are `,` over `'`; every other box has to be one rect
+            known = rounded and (w == 0 or (h == 0 and tuple(corners) == (",", ".", "'", "'")))
+            out.append((make_box(w, h, corners, hor, ver_rows, inner, hor_bottom), w, h, rounded, dashed, k, n, inner is not None, known))
         return out
 
     def random_grids(self, n):
@@ -168,7 +171,7 @@ class Check(PropertyCheck):
         fails = []
         texts = [gen.place(b[0], b[5], b[6]) for b in boxes]
         res = common.run_impl("lib", ["%d settings b=0,s=0,d=0 %s" % (i, hx(t)) for i, t in enumerate(texts)])
-        for i, (art, w, h, rounded, dashed, k, n, has_text) in enumerate(boxes):
+        for i, (art, w, h, rounded, dashed, k, n, has_text, known) in enumerate(boxes):
             self.evaluations += 1
             t = texts[i]
             self.nontrivial.add(t)
@@ -189,7 +192,7 @@ class Check(PropertyCheck):
             if len(rects) != 1 or others:
                 fails.append(Failure("a %dx%d box is not emitted as exactly one rect" % (w, h), case,
                                      {"elements": [(e.tag, e.attrs) for e in els][:6]},
-                                     cls="rounded_box_zero_interior" if (rounded and (w == 0 or h == 0)) else None))
+                                     cls="rounded_box_zero_interior" if known else None))
                 continue
             a = rects[0].attrs
             want = (F(8 * k + 4), F(16 * n + 8), F(8 * (w + 1)), F(16 * (h + 1)))
